@@ -83,18 +83,8 @@ def withinUlps (tol : Nat) (a b : List Float32) : Bool :=
 
 def isPerm (n : Nat) (l : List Nat) : Bool := l.length == n && nodup l && l.all (· < n)
 
-/-- PSM list of the peptide level -/
-def pepPsms (gd : Bool) (peps : List Pep) (feats : List (Nat × Nat)) : Option (List (Psm PepKey Nat Int)) :=
-  feats.mapM fun f => do
-    let p ← peps[f.1]?
-    pure { key := pepKey gd p, decoy := p.decoy, ix := f.1, score := scoreKey f.2 }
-
-/-- PSM list of the protein level: key = the protein list, stored index = the joined string -/
-def protPsms (gd : Bool) (tag : String) (peps : List Pep) (feats : List (Nat × Nat)) :
-    Option (List (Psm (List String) String Int)) :=
-  feats.mapM fun f => do
-    let p ← peps[f.1]?
-    pure { key := p.prots, decoy := p.decoy, ix := p.proteinStr tag gd, score := scoreKey f.2 }
+/-- features with their scores as `total_cmp` keys -/
+def keyed (feats : List (Nat × Nat)) : List (Nat × Int) := feats.map fun f => (f.1, scoreKey f.2)
 
 section generic
 variable {κ ι : Type} [DecidableEq κ] [DecidableEq ι] [LE ι] [DecidableLE ι]
@@ -117,7 +107,12 @@ def pickReply (psms : List (Psm κ ι Int)) (impl : List String) : Reply :=
   | none => { model := "unparsed-impl-reply", agree := false, spec := "na" }
   | some ((ip, iq), tab, ord) =>
     let iqs := iq.map f32OfBits
-    let spec := specVerdict botKey zero one thrPep psms iqs ip
+    let spec0 := specVerdict botKey zero one thrPep psms iqs ip
+    -- theorem `nan_all`: when every PEP of the table is NaN (zero-variance class, C14's known finding)
+    -- every q must be exactly 1.0 and nothing passes
+    let allNaN := !tab.isEmpty && tab.all fun t => t.2.isNaN
+    let spec := if spec0 == "ok" && allNaN && !(iqs.all (fun q => q.toBits == one.toBits) && ip == 0)
+      then "bad:nan_pep_not_one" else spec0
     if panics then { model := "panic", agree := false, spec := spec } else
     let rows := rowsOf es0
     if !(rows.all fun r => tab.any fun t => t.1 == r.score) then
@@ -181,21 +176,21 @@ def handle (op : String) (args impl : List String) : Option Reply :=
   match op with
   | "pickpep" => do
     let ((gd, _, peps), feats) ← run (do let d ← pDb; let f ← pFeats; pure (d, f)) args
-    let psms ← pepPsms gd peps feats
+    let psms ← pepPsms gd peps (keyed feats)
     pure (pickReply psms impl)
   | "pickprot" => do
     let ((gd, tag, peps), feats) ← run (do let d ← pDb; let f ← pFeats; pure (d, f)) args
-    let psms ← protPsms gd tag peps feats
+    let psms ← protPsms gd tag peps (keyed feats)
     pure (pickReply psms impl)
   | "permpep" => do
     let ((gd, _, peps), feats, perm) ← run (do let d ← pDb; let f ← pFeats; let p ← list nat; pure (d, f, p)) args
     if !isPerm feats.length perm then failure
-    let psms ← pepPsms gd peps feats
+    let psms ← pepPsms gd peps (keyed feats)
     pure (permReply psms impl)
   | "permprot" => do
     let ((gd, tag, peps), feats, perm) ← run (do let d ← pDb; let f ← pFeats; let p ← list nat; pure (d, f, p)) args
     if !isPerm feats.length perm then failure
-    let psms ← protPsms gd tag peps feats
+    let psms ← protPsms gd tag peps (keyed feats)
     pure (permReply psms impl)
   | "pickprec" => do
     let entries ← run pPeaks args
